@@ -104,6 +104,9 @@ def run_case(case):
             if e.startswith("UFL-REJECTED"):
                 count("rejected_by_ufl_extract_blocks")
                 continue
+            if o.get("part") == "diagonal" and "Diagonal form seems to be zero" in e:
+                count("rejected_zero_diagonal")  # explicit, documented rejection by jit.compile_forms
+                continue
             if mode == "sumfact" and e.startswith("AssertionError") and non_tp_elements():
                 viol("sum-factorization-non-tp-element-asserts", f"options {o}: AssertionError on a {b.ctx.cell} whose elements {non_tp_elements()[:3]} "
                      "have no tensor-product factorisation (sum factorisation should fall back, not fail)")
